@@ -165,12 +165,20 @@ theorem ctyLessB_comp {e : Ty} (hw : e.wf = true) (hp : e.plain = true) (hc : e.
   simp only [ctyLessB, setLess, h, and_self]
 
 /-- the decidable carrier implies the hypothesis of `compLessB_strictTotal` -/
-theorem tieFree_spec {e : Ty} {l : List Payload} (h : Payload.tieFree e l = true) :
+theorem tieFree_spec {e : Ty} (hw : e.wf = true) (hp : e.plain = true) {l : List Payload}
+    (hl : ∀ p ∈ l, p.shaped e = true) (h : Payload.tieFree e l = true) :
     ∀ a ∈ l, ∀ b ∈ l, rawB e a b = true ∨ hashBytesP e a ≠ hashBytesP e b := by
   intro a ha b hb
   simp only [Payload.tieFree, List.all_eq_true, Bool.or_eq_true] at h
   rcases h a ha b hb with h | h
-  · exact Or.inl h
+  · left
+    have hr := rawEquals_eq_rawB ⟨e, a⟩ ⟨e, b⟩ ((Value.shaped_iff _).mpr ⟨hw, hl a ha⟩)
+      ((Value.shaped_iff _).mpr ⟨hw, hl b hb⟩) hp
+    simp only [rawEq, decide_true, Bool.true_and] at hr
+    simp only [Payload.rawTrue, hr] at h
+    cases hq : rawB e a b
+    · rw [hq] at h; cases h
+    · rfl
   · right
     intro e'
     simp only [Payload.hashDiffer, e'] at h
